@@ -296,6 +296,10 @@ def condforms():
         out.append(lad(['sym equ 5', ' db sym'], kw + ' sym', 1 if not neg else 2))
         out.append(lad(['sym equ 5', 'unrelated equ 3'], kw + ' sym', 2 if not neg else 1))
         out.append(lad(['sym equ 5', 'oth equ sym+1'], kw + ' sym', 1 if not neg else 2))
+        # referenced BEFORE its definition (a forward reference, so in an earlier pass and in this one), queried after it
+        out.append(lad([' db sym', 'sym equ 5'], kw + ' sym', 1 if not neg else 2))
+        out.append(lad([' db sym', 'sym equ 5', ' db sym'], kw + ' sym', 1 if not neg else 2))
+        out.append(lad(['oth equ sym+1', 'sym equ 5'], kw + ' sym', 1 if not neg else 2))
     for neg, kw in ((0, 'ifexist'), (1, 'ifnexist')):
         out.append(lad([], kw + ' "there.inc"', 1 if not neg else 2, files={'there.inc': '; x\n'}))
         out.append(lad([], kw + ' "absent.inc"', 2 if not neg else 1))
